@@ -491,6 +491,11 @@ func (c *FieldBuildContext) GetOneOfTypeName() string {
 
 	name := c.MessageBuildContext.GetName() + "_" + c.GetName()
 
+	// The wrapper type lives in the Go package of its message, which need not be the package of the file being generated
+	if q := c.gen.DefaultPackageName(c.desc); q != "" {
+		return q + name
+	}
+
 	if c.config.DefaultPackageName == "" {
 		return name
 	}
